@@ -10,7 +10,7 @@ from persim import bottleneck
 
 from ..core import Clause, close
 from ..oracles import matching as M
-from ..strategies import diagram_family, valid_family
+from ..strategies import dict_of, diagram_family, valid_family
 from ._dist import (decimal_singleton_cases, near_identical_pair, EMPTY_FORMS, INF, as_input, call_quiet, coord_scale, has_dup, lattice_slice_cases,
                     pair_labels, small_pairs)
 
@@ -52,7 +52,7 @@ def check_value_small(case, ctx):
                 lambda: "bottleneck(..., matching=True) returns distance %r, min over all matchings=%r; A=%s B=%s" % (res[0] if isinstance(res, tuple) else res, ref, A, B))
 
 
-s_value_small = st.fixed_dictionaries({
+s_value_small = dict_of({
     "fam": small_pairs(6 if os.environ.get("PV_TIER") == "thorough" else 5), "ea": st.sampled_from(EMPTY_FORMS), "eb": st.sampled_from(EMPTY_FORMS),
     "as_list": st.sampled_from([False, False, True, "narrow"])})
 
@@ -74,7 +74,7 @@ def check_value_medium(case, ctx):
                 lambda: "bottleneck=%r, reference=%r; |A|=%d |B|=%d A=%s B=%s" % (out, ref, len(A), len(B), A, B))
 
 
-s_value_medium = st.fixed_dictionaries({"fam": diagram_family(count=2, min_size=0, max_size=30, dup_bias=True)})
+s_value_medium = dict_of({"fam": diagram_family(count=2, min_size=0, max_size=30, dup_bias=True)})
 
 
 @st.composite
@@ -178,7 +178,7 @@ CLAUSES = [
                 "non-trivial = both non-empty"),
     Clause("lattice_slice_3", cases=lambda: lattice_slice_cases(3, 3), check=check_slice, thorough_only=True,
            rule="EXHAUSTIVE, thorough tier only: all 48400 ordered pairs of multisets of <= 3 points on the 9-point lattice {(b,b+l): b,l in 0..2}"),
-    Clause("cross_hashseed", st.fixed_dictionaries({"fam": diagram_family(count=2, min_size=1, max_size=12, dup_bias=True)}),
+    Clause("cross_hashseed", dict_of({"fam": diagram_family(count=2, min_size=1, max_size=12, dup_bias=True)}),
            check_cross, quick=60, thorough=600, cross_shard=True,
            rule="the SAME generated cases are evaluated in all 16 shard processes (PYTHONHASHSEED 0..15); results must be "
                 "bit-identical across processes and equal the reference; non-trivial = >= 2 points each"),
